@@ -225,7 +225,7 @@ def run(ctx):
     ddag = LEAF_DAG + S.shift_dag(S.dict_dag(), len(LEAF_DAG))
     dcells = G.lib_build(ddag)
     didx = len(ddag) - 1
-    for t in range(ctx.n(1500, 15000)):
+    for t in range(ctx.n(4000, 20000)):
         check_roundtrip(ctx, ddag, dcells, gen_fitting(rng, dcells, didx), f'seq{t}')
     for toks in ([f'd:{didx}'], ['d:-'], [f'd:{didx}', 'd:-', 'u:3:2', f'd:{didx}'], [f'mr:{didx}', f'd:{didx}', f'r:{didx}', 'd:-'],
                  ['b:' + '1' * 1022, 'd:-'], ['b:' + '1' * 1022, f'd:{didx}'], ['r:0', 'r:1', 'r:2', f'd:{didx}']):
